@@ -248,6 +248,41 @@ func runRO(it *ROItem, ks *sut.KeySet, workRoot string) (res ROResult) {
 	}
 	variants = append(variants, variant{"nowritebackend", bI, dbB})
 
+	// C: read-only over a drive that does not exist and no index: nothing may be created
+	{
+		edir := filepath.Join(dir, "empty")
+		_ = os.MkdirAll(edir, 0o755)
+		for _, nowb := range []bool{false, true} {
+			cc := it.Cfg
+			cc.ReadOnly, cc.NoWriteBackend = true, nowb
+			sub := filepath.Join(edir, fmt.Sprintf("v%v", nowb))
+			_ = os.MkdirAll(sub, 0o755)
+			ci, err := sut.OpenNoInit(sub, "", cc, ks, nil)
+			if err != nil {
+				continue
+			}
+			var ierr error
+			var root string
+			ok, pan := sut.Watchdog(callTimeout, func() { root, ierr = ci.FS.Initialize("/", os.ModePerm) })
+			res.Checks++
+			res.Kinds["InitializeMissingDrive/EPERM"]++
+			if !ok || pan != nil {
+				add(i, Call{Op: "Initialize"}, "read-only Initialize over a missing drive did not return / panicked: %v", pan)
+			} else {
+				if _, err := os.Stat(ci.Drive); err == nil {
+					add(i, Call{Op: "Initialize"}, "read-only Initialize over a missing drive created the drive file (returned root %q, err %v)", root, ierr)
+				}
+				if rows, err := sut.Rows(ci.DB); err == nil && len(rows) > 0 {
+					add(i, Call{Op: "Initialize"}, "read-only Initialize over a missing drive wrote %d index rows (returned root %q, err %v)", len(rows), root, ierr)
+				}
+				if ierr == nil {
+					add(i, Call{Op: "Initialize"}, "read-only Initialize over a missing drive reported success (root %q)", root)
+				}
+			}
+			ci.Close()
+		}
+	}
+
 	for ; i < len(it.Steps); i++ {
 		st := &it.Steps[i]
 		n := i + 1
